@@ -492,6 +492,9 @@ def align_variable_names_with_convention(
                 substitute = style.rename_variable(
                     name, private=parsing.is_private(name), static=False
                 )
+                if renamings.get(node) == {name}:
+                    # What keeps its name is still called by that name in the class body
+                    substitute = name
                 renamings[node].add(substitute)
                 for refnode in _get_uses_of(node, partial_tree, source):
                     renamings[refnode].add(substitute)
@@ -507,6 +510,8 @@ def align_variable_names_with_convention(
                 substitute = style.rename_variable(
                     name, private=parsing.is_private(name), static=False
                 )
+                if renamings.get(node) == {name}:
+                    substitute = name
                 renamings[node].add(substitute)
                 for refnode in _get_uses_of(node, partial_tree, source):
                     renamings[refnode].add(substitute)
